@@ -130,7 +130,8 @@ func (p *genProvider) Retrieve(_ context.Context, uri string, w confmap.WatcherF
 		kind = p.plan[p.gen-1]
 	}
 	ev("retrieve g%d %s", p.gen, kind)
-	recv := fmt.Sprintf("{gen: %d}", p.gen)
+	// "failstartrecv": the RECEIVER fails to start - after the exporter of the same generation has been started
+	recv := fmt.Sprintf("{gen: %d, fail_start: %v}", p.gen, kind == "failstartrecv")
 	exp := fmt.Sprintf("{gen: %d, fail_start: %v, fail_stop: %v, slow_start: %v}", p.gen, kind == "failstart", kind == "failstop", kind == "slow")
 	extra := ""
 	if kind == "badcfg" {
@@ -336,7 +337,7 @@ func checkLog(res result, gp *genProvider) string {
 	// "a run that reached Running and is stopped ends in Closed with ... the configuration providers each shut down exactly
 	// once": the run reached Running if its first generation came up, and it went through the stop path (and not out through a
 	// failed reload, which leaves Closing/Starting) if it ended in Closed - whether or not the stop path reported errors
-	stoppedRun := res.runErr == "" || (res.state == StateClosed && (len(gp.plan) == 0 || (gp.plan[0] != "failstart" && gp.plan[0] != "badcfg")))
+	stoppedRun := res.runErr == "" || (res.state == StateClosed && (len(gp.plan) == 0 || (gp.plan[0] != "failstart" && gp.plan[0] != "badcfg" && gp.plan[0] != "failstartrecv")))
 	if stoppedRun && gp.shutdowns != 1 {
 		return fmt.Sprintf("provider shut down %d times", gp.shutdowns)
 	}
@@ -404,7 +405,7 @@ func TestVerif(t *testing.T) {
 	alpha := []string{"cfg", "cfgerr", "hup", "term", "shutdown", "ctx", "async"}
 	// (the last plan - every generation's exporter is slow to start - runs with the histories made of reload-related events)
 	plans := [][]string{{"ok", "ok", "ok"}, {"ok", "failstart"}, {"ok", "badcfg"}, {"ok", "failstop", "ok"}, {"failstart"}, {"badcfg"}, {"slow", "slow", "slow"},
-		{"closefail", "ok", "ok"}, {"ok", "closefail", "ok"}}
+		{"closefail", "ok", "ok"}, {"ok", "closefail", "ok"}, {"ok", "failstartrecv", "ok"}, {"failstartrecv"}}
 	histsOf := func(minLen, maxLen int) [][]string {
 		var hists [][]string
 		var rec func(cur []string)
@@ -452,7 +453,21 @@ func TestVerif(t *testing.T) {
 				if len(h) > 0 && (h[0] == "log" || h[len(h)-1] == "log") && pi > 1 {
 					continue // the logging-provider histories: two generation plans (all ok; the second generation fails to start)
 				}
-				if plan[0] == "closefail" || (len(plan) > 1 && plan[1] == "closefail") {
+				if plan[0] == "failstartrecv" && len(h) > 0 {
+				continue // the first generation does not come up: no event matters
+			}
+			if len(plan) > 1 && plan[1] == "failstartrecv" {
+				reloads := 0
+				for _, e := range h {
+					if e == "cfg" || e == "cfgerr" || e == "hup" {
+						reloads++
+					}
+				}
+				if reloads == 0 {
+					continue // the failing generation is never brought up
+				}
+			}
+			if plan[0] == "closefail" || (len(plan) > 1 && plan[1] == "closefail") {
 					// the close-failure plans: histories with at most one reload-related event before the stop
 					reloads := 0
 					for _, e := range h {
